@@ -9,7 +9,7 @@
    operands are snapshotted before/after every call and the package-level tables and constants are
    snapshotted through the verif hook before/after whole histories of calls. *)
 From Coq Require Import ZArith Bool List.
-From Apd Require Import Generated.Consts Model.Base Model.NumDigits Imp.Mem Imp.Ops Imp.AliasProofs.
+From Apd Require Import Generated.Consts Model.Base Model.NumDigits Model.Decimal Model.Context Imp.Mem Imp.Ops Imp.AliasProofs Imp.CtxOps Imp.CtxProofs.
 Open Scope Z_scope.
 
 Theorem C06_set_writes_destination_only d x : wr_within (only_obj d) (set_imp d x).
@@ -24,6 +24,24 @@ Print Assumptions C06_neg_writes_destination_only.
 Theorem C06_modf_writes_outputs_only d integ frac : wr_within (only_objs (objs_of integ frac)) (modf_imp d integ frac).
 Proof. exact (modf_imp_frame d integ frac). Qed.
 Print Assumptions C06_modf_writes_outputs_only.
+
+(* Context.Add / Sub / Abs / Neg / Round (Imp/CtxOps.v): over every branch - NaN operands, infinities, the three
+   upscale cases, the sign fix-ups, the rounding - only fields of the destination are written, and only fields of
+   d, x and y are read; with C05_context_* (final memory = initial memory with d replaced by a function of the
+   operands' initial values) the outcome is independent of what d held, and x, y, every other object unchanged *)
+Theorem C06_context_add_sub_writes_destination_only est c sub d x y : wr_within (only_obj d) (add_imp est c sub d x y).
+Proof. exact (add_imp_ww est c sub d x y). Qed.
+Print Assumptions C06_context_add_sub_writes_destination_only.
+Theorem C06_context_abs_neg_round_write_destination_only est c d x :
+  wr_within (only_obj d) (ctx_abs_imp est c d x) /\ wr_within (only_obj d) (ctx_neg_imp est c d x) /\
+  wr_within (only_obj d) (ctx_round_imp est c d x).
+Proof. exact (conj (ctx_abs_imp_ww est c d x) (conj (ctx_neg_imp_ww est c d x) (ctx_round_imp_ww est c d x))). Qed.
+Print Assumptions C06_context_abs_neg_round_write_destination_only.
+Theorem C06_context_methods_read_their_arguments_only est c sub d x y :
+  rd_within (only_objs [d; x; y]) (add_imp est c sub d x y) /\ rd_within (only_objs [d; x]) (ctx_abs_imp est c d x) /\
+  rd_within (only_objs [d; x]) (ctx_neg_imp est c d x) /\ rd_within (only_objs [d; x]) (ctx_round_imp est c d x).
+Proof. exact (conj (add_imp_reads est c sub d x y) (conj (ctx_abs_imp_reads est c d x) (conj (ctx_neg_imp_reads est c d x) (ctx_round_imp_reads est c d x)))). Qed.
+Print Assumptions C06_context_methods_read_their_arguments_only.
 
 (* independence of the destination's previous contents and preservation of the others, as one statement
    (from C05_modf): two initial memories that agree on the receiver give the same outputs *)
